@@ -134,6 +134,37 @@ fn describe(steps: &[Step]) -> String {
     s
 }
 
+/// Owner of an iterator under test. A vek `Drop` that panics must fail the case, not abort the process:
+/// the explicit drop is caught and reported, a drop during unwinding (two iterators are alive) is swallowed.
+struct Guard<I>(std::mem::ManuallyDrop<I>);
+impl<I> Guard<I> {
+    fn new(i: I) -> Self {
+        Guard(std::mem::ManuallyDrop::new(i))
+    }
+    fn finish(self) -> Result<(), String> {
+        let mut me = std::mem::ManuallyDrop::new(self);
+        let inner = unsafe { std::mem::ManuallyDrop::take(&mut me.0) };
+        vkit::catch(move || drop(inner))
+    }
+}
+impl<I> Drop for Guard<I> {
+    fn drop(&mut self) {
+        let inner = unsafe { std::mem::ManuallyDrop::take(&mut self.0) };
+        let _ = std::panic::catch_unwind(std::panic::AssertUnwindSafe(move || drop(inner)));
+    }
+}
+impl<I> std::ops::Deref for Guard<I> {
+    type Target = I;
+    fn deref(&self) -> &I {
+        &self.0
+    }
+}
+impl<I> std::ops::DerefMut for Guard<I> {
+    fn deref_mut(&mut self) -> &mut I {
+        &mut self.0
+    }
+}
+
 fn hash_of<H: Hash>(x: &H) -> u64 {
     let mut h = DefaultHasher::new();
     x.hash(&mut h);
@@ -146,8 +177,8 @@ fn run_history<V: VecOps<N>, const N: usize>(steps: &[Step], cx: &mut Cx) -> Cas
     ledger::reset();
     let n = N;
     // element k of the main iterator has id k, of the twin id n+k; both have val k
-    let mut it = V::build(&mut |k| ledger::fresh(k as u32)).into_it();
-    let mut twin = V::build(&mut |k| ledger::fresh(k as u32)).into_it();
+    let mut it = Guard::new(V::build(&mut |k| ledger::fresh(k as u32)).into_it());
+    let mut twin = Guard::new(V::build(&mut |k| ledger::fresh(k as u32)).into_it());
     sample!(cx, "{} n={} history=[{}]", V::NAME, n, describe(steps));
     let at = |i: usize| {
         let upto = (i + 1).min(steps.len());
@@ -197,18 +228,18 @@ fn run_history<V: VecOps<N>, const N: usize>(steps: &[Step], cx: &mut Cx) -> Cas
                 check_eq!(cx, it.size_hint(), (e - s, Some(e - s)), "{}: size_hint()", at(i));
             }
             Op::Debug => {
-                let text = ledger::with_ctx(Ctx::IterDebug, || format!("{:?}", it));
+                let text = ledger::with_ctx(Ctx::IterDebug, || format!("{:?}", *it));
                 cx.count();
                 let _ = text; // format not constrained
                 observed_after_pull |= pf + pb > 0;
             }
             Op::Hash => {
-                let (h1, h2) = ledger::with_ctx(Ctx::IterHash, || (hash_of(&it), hash_of(&twin)));
+                let (h1, h2) = ledger::with_ctx(Ctx::IterHash, || (hash_of(&*it), hash_of(&*twin)));
                 check!(cx, h1 == h2, "{}: identically-built, identically-driven iterators hash differently ({:#x} vs {:#x})", at(i), h1, h2);
                 observed_after_pull |= pf + pb > 0;
             }
             Op::Eq => {
-                let (a, b) = ledger::with_ctx(Ctx::IterEq, || (it == twin, !(it != twin)));
+                let (a, b) = ledger::with_ctx(Ctx::IterEq, || (*it == *twin, !(*it != *twin)));
                 check!(cx, a && b, "{}: iterator != its identically-built, identically-driven twin (==: {}, !(!=): {})", at(i), a, b);
                 observed_after_pull |= pf + pb > 0;
             }
@@ -222,8 +253,12 @@ fn run_history<V: VecOps<N>, const N: usize>(steps: &[Step], cx: &mut Cx) -> Cas
         }
     }
     let rem = e - s;
-    drop(it);
-    drop(twin);
+    for (which, g) in [("iterator", it), ("twin", twin)] {
+        cx.count();
+        if let Err(msg) = g.finish() {
+            fail!("{}: dropping the {} panicked: {}", at(steps.len()), which, msg);
+        }
+    }
     settle(cx, false, &|| at(steps.len()))?;
     for t in kept.drain(..) {
         ledger::consume(t);
@@ -371,7 +406,7 @@ const fn random_tape_len(n: usize) -> usize {
 
 const VEC_CONV_FIXED: u64 = 13;
 const fn vec_conv_total(n: u64) -> u64 {
-    VEC_CONV_FIXED + 2 * n + 3 // from_iter lengths 0..=2n+2
+    VEC_CONV_FIXED + 2 * (2 * n + 3) // from_iter and from_slice with source lengths 0..=2n+2
 }
 
 macro_rules! in_transit {
@@ -455,7 +490,11 @@ fn vec_conv_case<V: VecOps<N>, const N: usize>(idx: u64, cx: &mut Cx) -> CaseRes
         4 => {
             cx.label("into_iter().collect()");
             let v = V::build(&mut |k| mk(k));
-            let out: Vec<Tracked> = in_transit!(cx, format!("{}::into_iter().collect::<Vec<_>>()", name), v.into_it().collect());
+            // bounded: a broken `next` must not turn the harness into an endless loop
+            let mut it = v.into_it();
+            let out: Vec<Tracked> = in_transit!(cx, format!("{}::into_iter().collect::<Vec<_>>()", name), it.by_ref().take(n + 1).collect());
+            check!(cx, out.len() > n || it.next().is_none(), "{} into_iter(): Some after the iterator returned None", name);
+            drop(it);
             check_eq!(cx, out.len(), n, "{} into_iter().collect() length", name);
             expect_ids!("into_iter().collect()", |k: usize| out[k].id, n, |k| k as u32);
             drop(out);
@@ -463,7 +502,10 @@ fn vec_conv_case<V: VecOps<N>, const N: usize>(idx: u64, cx: &mut Cx) -> CaseRes
         5 => {
             cx.label("into_iter().rev().collect()");
             let v = V::build(&mut |k| mk(k));
-            let out: Vec<Tracked> = in_transit!(cx, format!("{}::into_iter().rev().collect::<Vec<_>>()", name), v.into_it().rev().collect());
+            let mut it = v.into_it().rev();
+            let out: Vec<Tracked> = in_transit!(cx, format!("{}::into_iter().rev().collect::<Vec<_>>()", name), it.by_ref().take(n + 1).collect());
+            check!(cx, out.len() > n || it.next().is_none(), "{} into_iter().rev(): Some after the iterator returned None", name);
+            drop(it);
             check_eq!(cx, out.len(), n, "{} into_iter().rev().collect() length", name);
             expect_ids!("into_iter().rev().collect()", |k: usize| out[k].id, n, |k| (n - 1 - k) as u32);
             drop(out);
@@ -530,6 +572,17 @@ fn vec_conv_case<V: VecOps<N>, const N: usize>(idx: u64, cx: &mut Cx) -> CaseRes
             check_eq!(cx, src.len(), 0, "{} from_iter(v.into_iter()): source not drained", name);
             drop(src);
             drop(w);
+        }
+        _ if idx >= VEC_CONV_FIXED + 2 * n as u64 + 3 => {
+            // from_slice (T: Default + Copy, hence u32 elements): same order / tail / surplus rules
+            let len = (idx - VEC_CONV_FIXED - (2 * n as u64 + 3)) as usize;
+            cx.label(if len < n { "from_slice:short" } else if len == n { "from_slice:exact" } else { "from_slice:long" });
+            let src: Vec<u32> = (0..len).map(|k| 5000 + k as u32).collect();
+            let v = V::from_slice_u32(&src);
+            for k in 0..n {
+                let want = if k < len { 5000 + k as u32 } else { u32::default() };
+                check_eq!(cx, *v.fld(k), want, "{}::from_slice({} elements): position {}", name, len, k);
+            }
         }
         _ => {
             // FromIterator with a source of `len` elements: short -> tail Default-filled (`T: Default` bound,
@@ -957,7 +1010,7 @@ pub fn property() -> Property {
             let total = vec_conv_total($n);
             checks.push(Check {
                 name: $conv,
-                about: "From<[T;N]>, into_array, into_tuple, From<tuple>, into_iter().collect() (+rev), map (identity / consuming), zip, map2, map3, round trips, from_iter with every source length 0..=2n+2 (tail Default-filled, surplus never stored): id at position k as documented, nothing cloned/dropped/observed in transit, nothing leaked",
+                about: "From<[T;N]>, into_array, into_tuple, From<tuple>, into_iter().collect() (+rev), map (identity / consuming), zip, map2, map3, round trips, from_iter with every source length 0..=2n+2 (tail Default-filled, surplus never stored), from_slice likewise (u32 elements): id at position k as documented, nothing cloned/dropped/observed in transit, nothing leaked",
                 kind: Kind::Index { total, quick: total, thorough: total, f: vec_conv_case::<$V<Tracked>, $n> },
             });
             let total = 6 * 2 * $n;
